@@ -84,6 +84,7 @@ type Pred struct {
 	Name   string
 	Params []Binder
 	Body   *SpecNode
+	Also   *SpecNode // consequence of Body, used only on the hypothesis side
 	Text   string
 	PkgPath string
 }
@@ -298,11 +299,21 @@ func (db *ContractDB) loadContractFile(path string, pkgPath string, src []byte) 
 			if err != nil {
 				return fmt.Errorf("%s:%d: %v", path, rl.line, err)
 			}
-			body, err := parseSpec(strings.TrimSpace(rest[eq+1:]))
+			bodyText := strings.TrimSpace(rest[eq+1:])
+			var also *SpecNode
+			if i := topLevelIndex(bodyText, " also "); i >= 0 {
+				a, err := parseSpec(strings.TrimSpace(bodyText[i+6:]))
+				if err != nil {
+					return fmt.Errorf("%s:%d: %v", path, rl.line, err)
+				}
+				also = a
+				bodyText = strings.TrimSpace(bodyText[:i])
+			}
+			body, err := parseSpec(bodyText)
 			if err != nil {
 				return fmt.Errorf("%s:%d: %v", path, rl.line, err)
 			}
-			db.Preds[name] = &Pred{Name: name, Params: params, Body: body, Text: rest, PkgPath: pkgPath}
+			db.Preds[name] = &Pred{Name: name, Params: params, Body: body, Also: also, Text: rest, PkgPath: pkgPath}
 		case "nonnil":
 			for _, f := range strings.Fields(strings.ReplaceAll(rest, ",", " ")) {
 				db.NonNil[pkgPath+"."+f] = true
